@@ -348,7 +348,32 @@ def run_library(spec, rec):
     if spec.get('bare') and len(inp) == 1:
         inp = inp[0]
 
+    def companion():
+        # another problem of the same page: the SAME summand texts (author's and student's) between limits that are written
+        # with function calls, among them an author-supplied 'fact' - graded first.  What it leaves behind (in the parse
+        # cache, in per-class tables) must not reach the sum under test: not its cut-off, not its function restrictions.
+        texts_c = [cfg['answers']['summand'], texts['summand']]
+        for summand in texts_c:
+            kw = {k: v for k, v in cfg.items() if k not in ('answers', 'input_positions', 'infty_val', 'sample_from')}
+            kw['sample_from'] = {k: Scripted(values=list(v.config['values'])) for k, v in cfg['sample_from'].items()}
+            kw['user_functions'] = dict(cfg.get('user_functions', {}), fact=_companion_fact)
+            kw['suppress_warnings'] = True        # 'fact' replaces the default of that name (which needs scipy)
+            kw['answers'] = {'lower': 'fact(2)-1', 'upper': 'sqrt(16)', 'summand': summand,
+                             'summation_variable': cfg['answers']['summation_variable']}
+            try:
+                g2 = SumGrader(**kw)
+            except Exception:  # noqa: BLE001 - e.g. the configuration under test is itself meant to be refused
+                rec.note('companion-not-constructible')
+                continue
+            try:
+                g2(None, ['fact(2)-1', 'abs(-3)', summand, cfg['answers']['summation_variable']])
+                rec.note('companion-graded')
+            except Exception:  # noqa: BLE001 - whatever the companion does is its own business
+                rec.note('companion-raised')
+
     def go():
+        if not spec.get('no_companion'):
+            companion()
         set_seed(spec['seed'])
         grader = SumGrader(**cfg)
         with watchdog(60):
@@ -356,6 +381,10 @@ def run_library(spec, rec):
     out = call(go)
     rec.calls()
     return out, cfg['answers'], inp
+
+
+def _companion_fact(n):
+    return float(math.factorial(int(round(n)))) if 0 <= n < 20 else 1.0
 
 
 def lim_value(l):
